@@ -34,7 +34,7 @@ ASSUMPTIONS = [
 ]
 TIERS = {
     "quick": dict(nshards=16, maps=260, perm_all_upto=4, perm_sample=12, paths_per_rule=3),
-    "thorough": dict(nshards=64, maps=2200, perm_all_upto=5, perm_sample=30, paths_per_rule=4),
+    "thorough": dict(nshards=48, maps=420, perm_all_upto=5, perm_sample=30, paths_per_rule=4),
 }
 METHODS = ["GET", "POST", "HEAD", "DELETE"]
 
